@@ -158,7 +158,7 @@ func (e *Exec) shouldExecute(fn *ssa.Function) bool {
 	if o := fn.Origin(); o != nil {
 		full = o.String()
 	}
-	return execFuncs[full]
+	return execFuncs[full] || isAnteConstructor(full)
 }
 
 // ---------------- builtins ----------------
